@@ -306,24 +306,174 @@ func instrDominates(a, b ssa.Instruction) bool {
 
 type edge struct{ from, to int }
 
+// joinInfo describes a block whose terminating If tests a boolean φ of the block itself — what go/ssa emits for a
+// short-circuit expression used as a value (`changed := a || !b; if changed`, the cases of a tagless switch): the
+// branch taken is determined by the edge through which the block was entered.
+type joinInfo struct {
+	iff *ssa.If
+	phi *ssa.Phi
+	pol bool // succ[0] is taken when the φ is true
+}
+
+var joinCache = map[*ssa.BasicBlock]*joinInfo{}
+
+func stripBoolWrap(v ssa.Value) (ssa.Value, bool) {
+	pol := true
+	for {
+		switch x := v.(type) {
+		case *ssa.UnOp:
+			if x.Op == token.NOT {
+				v = x.X
+				pol = !pol
+				continue
+			}
+		case *ssa.BinOp:
+			if x.Op == token.EQL || x.Op == token.NEQ {
+				if k, ok := constBool(x.X); ok {
+					if _, isK := x.Y.(*ssa.Const); !isK {
+						v = x.Y
+						if k != (x.Op == token.EQL) {
+							pol = !pol
+						}
+						continue
+					}
+				}
+				if k, ok := constBool(x.Y); ok {
+					if _, isK := x.X.(*ssa.Const); !isK {
+						v = x.X
+						if k != (x.Op == token.EQL) {
+							pol = !pol
+						}
+						continue
+					}
+				}
+			}
+		}
+		return v, pol
+	}
+}
+
+func joinOf(b *ssa.BasicBlock) *joinInfo {
+	if ji, ok := joinCache[b]; ok {
+		return ji
+	}
+	var ji *joinInfo
+	if len(b.Instrs) > 0 {
+		if iff, ok := b.Instrs[len(b.Instrs)-1].(*ssa.If); ok {
+			v, pol := stripBoolWrap(iff.Cond)
+			if phi, ok := v.(*ssa.Phi); ok && phi.Block() == b && len(phi.Edges) == len(b.Preds) {
+				ji = &joinInfo{iff: iff, phi: phi, pol: pol}
+			}
+		}
+	}
+	joinCache[b] = ji
+	return ji
+}
+
+// vedge names, in a cut set, the virtual edge "block d, entered through its i-th predecessor (that predecessor — a
+// block that only merges a boolean value — itself entered through its j-th predecessor, j < 0: any), to successor s".
+func vedge(d, i, j, s int) edge { return edge{-(1 + (d*256+i)*256 + (j + 1)), s} }
+
+// valueJoin: a block that merges a boolean value in a φ and jumps on (the inner `b || c` of `a && (b || c)` used as
+// a value).
+func valueJoinPhi(b *ssa.BasicBlock, used ssa.Value) *ssa.Phi {
+	v, _ := stripBoolWrap(used)
+	phi, ok := v.(*ssa.Phi)
+	if !ok || phi.Block() != b || len(b.Succs) != 1 || len(phi.Edges) != len(b.Preds) {
+		return nil
+	}
+	return phi
+}
+
+// phiPathValue resolves the value tested by the join block d when it was entered through predecessor index i (and
+// that predecessor through j, or -1): the value with the polarity of the φ of d.
+func phiPathValue(ji *joinInfo, d *ssa.BasicBlock, i, j int) (ssa.Value, bool) {
+	ev, epol := stripBoolWrap(ji.phi.Edges[i])
+	if j >= 0 {
+		if q := valueJoinPhi(d.Preds[i], ev); q != nil && j < len(q.Edges) {
+			v2, p2 := stripBoolWrap(q.Edges[j])
+			return v2, epol == p2
+		}
+	}
+	return ev, epol
+}
+
 // reachableBlocks returns, for fn, the set of blocks reachable from `start` (block index)
-// when the given edges are removed and the given blocks are not entered.
+// when the given edges are removed and the given blocks are not entered. Blocks that test a φ of their own
+// (joinInfo) are threaded: entered through an edge that carries a constant, only the matching successor is followed.
 func reachableBlocks(fn *ssa.Function, start int, cut map[edge]bool, blocked map[int]bool) []bool {
 	seen := make([]bool, len(fn.Blocks))
 	if blocked[start] {
 		return seen
 	}
-	stack := []int{start}
+	type state struct{ b, via, via2 int } // via, via2: predecessor index + 1 of the block / of that predecessor (0: unknown)
+	seenVia := map[state]bool{}
+	stack := []state{{start, 0, 0}}
 	seen[start] = true
+	predIdx := func(B *ssa.BasicBlock, si int) int {
+		s := B.Succs[si]
+		k := 0
+		for j := 0; j < si; j++ {
+			if B.Succs[j] == s {
+				k++
+			}
+		}
+		for pi, p := range s.Preds {
+			if p == B {
+				if k == 0 {
+					return pi
+				}
+				k--
+			}
+		}
+		return -1
+	}
 	for len(stack) > 0 {
-		b := stack[len(stack)-1]
+		cur := stack[len(stack)-1]
 		stack = stack[:len(stack)-1]
-		for _, s := range fn.Blocks[b].Succs {
-			if cut[edge{b, s.Index}] || blocked[s.Index] || seen[s.Index] {
+		B := fn.Blocks[cur.b]
+		ji := joinOf(B)
+		for si, s := range B.Succs {
+			if cut[edge{cur.b, s.Index}] || blocked[s.Index] {
 				continue
 			}
+			if ji != nil && cur.via > 0 {
+				ev, epol := phiPathValue(ji, B, cur.via-1, cur.via2-1)
+				if k, ok := constBool(ev); ok {
+					phiTrue := k == epol
+					takes := 0
+					if phiTrue != ji.pol {
+						takes = 1
+					}
+					if si != takes {
+						continue
+					}
+				}
+				if cut[vedge(cur.b, cur.via-1, -1, s.Index)] || (cur.via2 > 0 && cut[vedge(cur.b, cur.via-1, cur.via2-1, s.Index)]) {
+					continue
+				}
+			}
+			via, via2 := 0, 0
+			sj := joinOf(s)
+			if sj != nil {
+				via = predIdx(B, si) + 1
+				if via > 0 && cur.via > 0 {
+					ev, _ := stripBoolWrap(sj.phi.Edges[via-1])
+					if valueJoinPhi(B, ev) != nil {
+						via2 = cur.via
+					}
+				}
+			} else if len(s.Succs) == 1 && joinOf(s.Succs[0]) != nil {
+				// possibly a value-merging block: remember how it was entered
+				via = predIdx(B, si) + 1
+			}
+			key := state{s.Index, via, via2}
+			if seenVia[key] {
+				continue
+			}
+			seenVia[key] = true
 			seen[s.Index] = true
-			stack = append(stack, s.Index)
+			stack = append(stack, key)
 		}
 	}
 	return seen
@@ -334,6 +484,56 @@ func reachableBlocks(fn *ssa.Function, start int, cut map[edge]bool, blocked map
 type condIf struct {
 	If  *ssa.If
 	Pol bool
+	Via  int       // 0: the If itself; i+1: the If of a φ-testing block as seen through its i-th incoming edge (ifsOnV)
+	Via2 int       // j+1: that predecessor merges a boolean value and was entered through its j-th edge
+	Val  ssa.Value // the tested value, negations stripped (the edge value for Via > 0)
+}
+
+// edgeWhen returns the (possibly virtual) edge taken when the tested value is val.
+func (ci condIf) edgeWhen(val bool) edge {
+	b := ci.If.Block()
+	idx := 0
+	if ci.Pol != val {
+		idx = 1
+	}
+	if ci.Via > 0 {
+		return vedge(b.Index, ci.Via-1, ci.Via2-1, b.Succs[idx].Index)
+	}
+	return edge{b.Index, b.Succs[idx].Index}
+}
+
+// ifsOnV is ifsOn plus the virtual conditions of φ-testing blocks: for `c := a || pred-value; if c {…}` (and the
+// cases of a tagless switch) the If tests a φ; seen through the incoming edge that carries a value satisfying pred,
+// it is an If on that value.
+func ifsOnV(fn *ssa.Function, pred func(ssa.Value) bool) []condIf {
+	out := ifsOn(fn, pred)
+	for _, b := range fn.Blocks {
+		ji := joinOf(b)
+		if ji == nil {
+			continue
+		}
+		for i, e := range ji.phi.Edges {
+			v, epol := stripBoolWrap(e)
+			if _, isK := v.(*ssa.Const); isK {
+				continue
+			}
+			if pred(v) {
+				out = append(out, condIf{If: ji.iff, Pol: ji.pol == epol, Via: i + 1, Val: v})
+			}
+			if q := valueJoinPhi(b.Preds[i], v); q != nil {
+				for j, e2 := range q.Edges {
+					v2, p2 := stripBoolWrap(e2)
+					if _, isK := v2.(*ssa.Const); isK {
+						continue
+					}
+					if pred(v2) {
+						out = append(out, condIf{If: ji.iff, Pol: ji.pol == (epol == p2), Via: i + 1, Via2: j + 1, Val: v2})
+					}
+				}
+			}
+		}
+	}
+	return out
 }
 
 func ifsOn(fn *ssa.Function, pred func(ssa.Value) bool) []condIf {
@@ -357,7 +557,7 @@ func ifsOn(fn *ssa.Function, pred func(ssa.Value) bool) []condIf {
 			break
 		}
 		if pred(v) {
-			out = append(out, condIf{iff, pol})
+			out = append(out, condIf{If: iff, Pol: pol, Val: v})
 		}
 	}
 	return out
@@ -369,12 +569,7 @@ func ifsOn(fn *ssa.Function, pred func(ssa.Value) bool) []condIf {
 func onlyIf(fn *ssa.Function, target ssa.Instruction, conds []condIf, want bool) bool {
 	cut := map[edge]bool{}
 	for _, ci := range conds {
-		b := ci.If.Block()
-		idx := 0 // successor taken when cond value == want
-		if ci.Pol != want {
-			idx = 1
-		}
-		cut[edge{b.Index, b.Succs[idx].Index}] = true
+		cut[ci.edgeWhen(want)] = true
 	}
 	seen := reachableBlocks(fn, 0, cut, nil)
 	return !seen[target.Block().Index]
